@@ -1,4 +1,7 @@
 /-
+  UPDATE (build round 2): `C14_anchors_statement` is PROVED in Properties/C14Anchors.lean (with `C14_anchor_keys`, `C14_anchors_order`); branches-inside in C14Inside.lean.
+  (The text below is kept as written in round 1; where it says "missing" / "not proved", see the files above.)
+
   C14 — Geometry of `layout.compute`: sibling species boxes are disjoint and
   nested in their parent's box, the HORIZONTAL layout is the mirror image of
   the VERTICAL one, and trunks of distinct species do not overlap.
